@@ -147,7 +147,7 @@ class C13(Prop):
         if case["rule"] == "EV":
             if obs["status"] != "ok":
                 return ("no_result", "%s failed on a valid profile: %s %s / %s %s" % (case["entry"], a["status"], a.get("err"), b["status"], b.get("err")))
-            vt = b["vt"]; sc = [float(x) for x in vt] if case["erule"] == "PRV" else [float(sum(row[j] for row in vt)) for j in range(len(vt[0]))]
+            vt = b["vt"]; sc = [float(x) for x in vt] if case["erule"] == "PRV" else [float(x) for x in np.sum(np.array(vt, dtype=float), axis=0)]      # (numpy's own reduction, as KARV.score does: Python 3.12's built-in sum() of floats is compensated and differs in the last bit)
             mx = max(sc); maxi = [j for j in range(len(sc)) if sc[j] == mx]
             oa, ob = a["out"], b["out"]
             if case["tb"] == "accept":
